@@ -79,3 +79,37 @@ func C13_Shaped40() {
 	_, e31 := gocvss31.ParseVector(s)
 	verif.Assert(e20 != nil && e30 != nil && e31 != nil, "a v4.0-shaped vector is rejected by the 2.0, 3.0 and 3.1 parsers")
 }
+
+// C13_ForeignHeader: a string of ANY length (the first 16 bytes are explicit,
+// the rest is only ever compared) that does not start with a version's header
+// is rejected by that version's parser (3.0, 3.1, 4.0). With
+// C13_VectorHeader (every Vector() output starts with its own version's
+// header; "AV:" for v2.0) no Vector() output of one version is accepted by
+// the 3.0/3.1/4.0 parser of another one, whatever its length.
+func C13_ForeignHeader() {
+	s := verif.NondetString("s", -16)
+	// (nested ifs rather than ||: the path condition then contradicts the parser's own test syntactically)
+	if len(s) >= 9 {
+		if s[:9] != "CVSS:3.0/" {
+			_, e := gocvss30.ParseVector(s)
+			verif.Assert(e != nil, "a string without the 3.0 header is rejected by the 3.0 parser")
+		}
+		if s[:9] != "CVSS:3.1/" {
+			_, e := gocvss31.ParseVector(s)
+			verif.Assert(e != nil, "a string without the 3.1 header is rejected by the 3.1 parser")
+		}
+	} else {
+		_, e0 := gocvss30.ParseVector(s)
+		_, e1 := gocvss31.ParseVector(s)
+		verif.Assert(e0 != nil && e1 != nil, "a string shorter than the header is rejected by the 3.0 and 3.1 parsers")
+	}
+	if len(s) >= 8 {
+		if s[:8] != "CVSS:4.0" {
+			_, e := gocvss40.ParseVector(s)
+			verif.Assert(e != nil, "a string without the 4.0 header is rejected by the 4.0 parser")
+		}
+	} else {
+		_, e := gocvss40.ParseVector(s)
+		verif.Assert(e != nil, "a string shorter than the header is rejected by the 4.0 parser")
+	}
+}
